@@ -401,8 +401,16 @@ fn check_events(line: &str, out: &mut CaseOut, desc: &str) -> String {
                     out.violate(format!("C16:init-end-without-begin:{name}"), format!("{desc}: events {line}"));
                 }
             }
-            EV_USE => match end.get(t) {
-                Some(e) if *e < seq => {}
+            EV_USE => match (begin.get(t), end.get(t)) {
+                (_, Some(e)) if *e < seq => {}
+                // the initialiser of this table is not instrumented (any more):
+                // nothing can be said about it
+                (None, None) => {
+                    let note = format!("H3 hook not reached for table {name}: exactly-once / end-before-use not observable");
+                    if !out.inconclusive.contains(&note) {
+                        out.inconclusive.push(note);
+                    }
+                }
                 _ => out.violate(
                     format!("C16:table-used-before-initialised:{name}"),
                     format!("{desc}: a deref of {name} returned (event {seq}) before its initialisation completed; events {line}"),
